@@ -64,7 +64,7 @@ def run(tier, seed, procs):
     N, K = (4, 3) if quick else (7, 4)
     tasks = [(MOD, n, lay, K) for n in range(0, N + 1) for lay in gen.LAYOUTS]
     cols = drive.pool_map(drive.shard_enum_story, tasks, procs)
-    kw = dict(kinds=gen.STORY_KINDS, faults='some', rich=True, degenerate=True)
+    kw = dict(allow_no_slug=True, kinds=gen.STORY_KINDS, faults='some', rich=True, degenerate=True)
     shards, per = (8, 400) if quick else (16, 12000)
     cols += drive.pool_map(drive.shard_hyp_steps,
                            [(MOD, per, seed * 1000 + i, kw) for i in range(shards)], procs)
